@@ -172,6 +172,58 @@ type EmbShadowSame struct {
 	BaseA string `json:"base_a"`
 }
 
+// --- embedded fields that encoding/json does NOT flatten (a JSON name in the tag, a non-struct type) or
+// drops together with everything they promote (json:"-"), and tags without a name (still flattened) ---
+
+type EmbNamedTag struct {
+	Inner `json:"inner"`
+	N     int `json:"n"`
+}
+type EmbNamedTagPtr struct {
+	*EmbBase `json:"base,omitempty"`
+	N        int `json:"n"`
+}
+type EmbDashed struct {
+	EmbBase `json:"-"`
+	N       int `json:"n"`
+}
+type EmbOptsOnly struct { // no name in the tag: flattened (the ",inline" idiom included)
+	EmbBase `json:",omitempty"`
+	Inner   `json:",inline"`
+	N       int `json:"n"`
+}
+type EmbNonStruct struct {
+	NamedInt
+	NamedStr `json:"s"`
+	N        int `json:"n"`
+}
+type EmbNonStructPtr struct {
+	*NamedInt
+	NamedInts `json:",omitempty"`
+	N         int `json:"n"`
+}
+type EmbMap struct {
+	NamedMap
+	Key `json:"-"`
+}
+type embPriv struct {
+	P int `json:"p"`
+}
+type embprivint int
+type EmbUnexportedTagged struct {
+	embPriv    `json:"priv"` // an embedded struct of unexported type WITH a name is marshaled under that name
+	embprivint               //nolint: an embedded unexported non-struct is ignored
+	N          int           `json:"n"`
+}
+type EmbTaggedHoldsEmb struct { // the tagged embedded struct embeds further structs: none of their fields is promoted
+	EmbNested `json:"nested"`
+	Z         int `json:"z"`
+}
+type EmbFlattenedHoldsTagged struct { // flattened outer, tagged inner
+	EmbNamedTag
+	M int `json:"m"`
+}
+
 // The same type several times.
 type Repeats struct {
 	A  Inner            `json:"a"`
@@ -321,6 +373,8 @@ var PlainData = []reflect.Type{
 	reflect.TypeFor[Scalars](), reflect.TypeFor[Tags](), reflect.TypeFor[Inner](), reflect.TypeFor[Pointers](), reflect.TypeFor[Containers](),
 	reflect.TypeFor[NamedKinds](), reflect.TypeFor[EmbByValue](), reflect.TypeFor[EmbByPointer](), reflect.TypeFor[EmbNested](), reflect.TypeFor[EmbUnexportedType](),
 	reflect.TypeFor[EmbTwo](), reflect.TypeFor[EmbShadowSame](), reflect.TypeFor[EmbDeep](),
+	reflect.TypeFor[EmbNamedTag](), reflect.TypeFor[EmbNamedTagPtr](), reflect.TypeFor[EmbDashed](), reflect.TypeFor[EmbOptsOnly](), reflect.TypeFor[EmbNonStruct](), reflect.TypeFor[EmbNonStructPtr](),
+	reflect.TypeFor[EmbMap](), reflect.TypeFor[EmbUnexportedTagged](), reflect.TypeFor[EmbTaggedHoldsEmb](), reflect.TypeFor[EmbFlattenedHoldsTagged](), reflect.TypeFor[[]EmbNamedTag](), reflect.TypeFor[map[string]*EmbNonStruct](),
 	reflect.TypeFor[Empty](), reflect.TypeFor[OnlyOmitted](), reflect.TypeFor[HoldsEmpty](), reflect.TypeFor[Described](), reflect.TypeFor[struct{}](), reflect.TypeFor[map[string]struct{}](), reflect.TypeFor[[]Empty](),
 	reflect.TypeFor[[]Scalars](), reflect.TypeFor[map[string]*Containers](), reflect.TypeFor[*Pointers](), reflect.TypeFor[[2]Tags](), reflect.TypeFor[NamedMap](), reflect.TypeFor[NamedInts](),
 	reflect.TypeFor[int8](), reflect.TypeFor[uint64](), reflect.TypeFor[float32](), reflect.TypeFor[string](), reflect.TypeFor[bool](), reflect.TypeFor[any](), reflect.TypeFor[*int](), reflect.TypeFor[[]any](),
